@@ -163,32 +163,50 @@ class Source:
         return self.text.count("\n", 0, off) + 1
 
 
-def locate(src, scopes, has=None, first=False):
-    """Return (tok_lo, tok_hi, body_brace_idx or None) for the item named by the scope path."""
-    toks = src.toks
-    lo, hi = 0, len(toks)
-    for k, pat in enumerate(scopes):
-        last = k == len(scopes) - 1
+def find_scopes(toks, lo, hi, pat, has=None):
+    hits = []
+    deep = pat.startswith("..")
+    if deep:
+        pat = pat[2:]
+    for (h, b, c) in (all_blocks(toks, lo, hi) if deep else rl.blocks(toks, lo, hi)):
+        raw = "".join(t.text for t in toks[h:b])
+        code = _strip_attrs_comments(toks[h:b])
+        if _hdr_matches(code, raw, pat, has):
+            hits.append((h, b, c))
+    return hits
+
+
+def _locate_in(src, toks, lo, hi, scopes, has, first):
+    pat = scopes[0]
+    last = len(scopes) == 1
+    if last:
         m = re.match(r"^(static|const|type)\s+(\S+)$", _norm(pat))
-        if last and m:
+        if m:
             r = find_stmt_item(toks, lo, hi, m.group(1), m.group(2))
-            if r is None:
-                raise GenError("lost anchor: %s :: %s" % (src.rel, " :: ".join(scopes)))
-            return (r[0], r[1], None)
-        r = find_scope(toks, lo, hi, pat, has if last else None, first)
-        if r is None and last:
+            return [(r[0], r[1], None)] if r else []
+        hits = find_scopes(toks, lo, hi, pat, has)
+        if not hits:
             m2 = re.match(r"^(struct)\s+(\S+)$", _norm(pat))
             if m2:
                 r2 = find_stmt_item(toks, lo, hi, m2.group(1), m2.group(2))
                 if r2 is not None:
-                    return (r2[0], r2[1], None)
-        if r is None:
-            raise GenError("lost anchor: %s :: %s (at %r)" % (src.rel, " :: ".join(scopes), pat))
-        h, b, c = r
-        if last:
-            return (h, c + 1, b)
-        lo, hi = b + 1, c
-    raise GenError("empty path")
+                    return [(r2[0], r2[1], None)]
+        return [(h, c + 1, b) for (h, b, c) in hits]
+    res = []
+    for (h, b, c) in find_scopes(toks, lo, hi, pat, None):
+        res += _locate_in(src, toks, b + 1, c, scopes[1:], has, first)
+    return res
+
+
+def locate(src, scopes, has=None, first=False):
+    """Return (tok_lo, tok_hi, body_brace_idx or None) for the item named by the scope path.
+    Intermediate scopes may match several blocks (e.g. two `impl Error`); the item must be unique."""
+    hits = _locate_in(src, src.toks, 0, len(src.toks), scopes, has, first)
+    if not hits:
+        raise GenError("lost anchor: %s :: %s" % (src.rel, " :: ".join(scopes)))
+    if len(hits) > 1 and not first:
+        raise GenError("ambiguous item %s :: %s (%d matches)" % (src.rel, " :: ".join(scopes), len(hits)))
+    return hits[0]
 
 
 # ---------------------------------------------------------------------------------------------
@@ -219,6 +237,12 @@ def strip_r0(toks):
             if k < n and toks[k].text == "[":
                 e = rl.match_close(toks, k)
                 attr = rl.code_text(toks[j:e + 1])
+                if attr.startswith("#[derive") and re.search(r"\bCopy\b", attr):
+                    # plain-data type: keep Copy/Clone (needed by the borrow checker), drop the other derives
+                    fired.add("R0:derive->Clone,Copy")
+                    out.append(rl.Tok("attr", "#[derive(Clone, Copy)]", t.start, t.end))
+                    j = e + 1
+                    continue
                 if not attr.startswith("#[verifier"):
                     fired.add("R0:attr")
                     j = e + 1
@@ -692,11 +716,11 @@ def generate(unit, template_text, repo_root, units_dir=None):
             if blk.kind == "type" and not opts.get("private"):
                 # visibility normalisation (R0): everything in the generated file is `pub`
                 stext = re.sub(r"^(\s*)(struct|enum|union)\b", r"\1pub \2", stext, count=1, flags=re.M)
-                if re.match(r"^\s*pub struct\b[^;{]*\{", stext, re.S):
+                if re.search(r"(?m)^\s*pub struct\b[^;{(]*\{", stext):
                     stext = re.sub(r"(?m)^(\s+)([A-Za-z_][A-Za-z0-9_]*\s*:)", r"\1pub \2", stext)
-                elif re.match(r"^\s*pub struct\b[^;{]*\(", stext, re.S):
+                elif re.search(r"(?m)^\s*pub struct\b[^;{(]*\(", stext):
                     # tuple struct: make the fields pub
-                    m_ = re.match(r"^(\s*pub struct\b[^(]*\()(.*)(\)\s*;\s*)$", stext, re.S)
+                    m_ = re.match(r"^(.*?pub struct\b[^(]*\()(.*)(\)\s*;\s*)$", stext, re.S)
                     if m_:
                         fields = ", ".join("pub " + f.strip() for f in m_.group(2).split(",") if f.strip())
                         stext = m_.group(1) + fields + m_.group(3)
